@@ -274,7 +274,7 @@ def run_real(case):
         orders = []
         from dagrt.codegen.dag_ast import get_statements_in_ast
         for st in get_statements_in_ast(ast):
-            orders.append(list(st.get_read_variables() & st.get_written_variables()))
+            orders.append(sorted(st.get_read_variables() & st.get_written_variables()))
         try:
             new = apply_real(case["pass"], ast)
             _cache[key] = (ast, new, orders, None)
